@@ -312,6 +312,27 @@ func main() {
 		}()
 	}
 
+	// the prefix experiment (prefix.go) runs concurrently: its shards share nothing with each other or with the
+	// history runs below (own worlds, runtimes, environments, summaries)
+	type shard struct {
+		vm bool
+		n  int
+	}
+	prefixShards := []shard{{false, 0}, {false, 1}, {true, 0}, {true, 1}}
+	prefixCh := make(chan *lib.Summary, len(prefixShards))
+	for _, sh := range prefixShards {
+		go func(sh shard) {
+			ps := &lib.Summary{}
+			defer func() {
+				if r := recover(); r != nil {
+					ps.Fail("go-panic", fmt.Sprintf("Go panic in the prefix experiment (vm=%v): %v", sh.vm, r), map[string]any{"vm": sh.vm})
+				}
+				prefixCh <- ps
+			}()
+			prefixExperiment(ps, *seed*4+uint64(sh.n), *tier, sh.vm)
+		}(sh)
+	}
+
 	cw := &lib.CaseWriter{
 		Dir: *dir, Prefix: "cases_C33",
 		Header:   "From CV Require Import C33.Cases.",
@@ -409,9 +430,18 @@ func main() {
 	_, tsErr := exec.LookPath("taskset")
 	sum.Extra["taskset_available"] = tsErr == nil
 
-	// outcome independent of what the runtime / a reused Environment executed before
-	for _, vm := range []bool{false, true} {
-		prefixExperiment(sum, *seed, *tier, vm)
+	// outcome independent of what the runtime / a reused Environment executed before (started earlier, see above)
+	for range prefixShards {
+		ps := <-prefixCh
+		sum.Evaluations += ps.Evaluations
+		for k, v := range ps.Distribution {
+			for i := 0; i < v; i++ {
+				sum.Count(k)
+			}
+		}
+		for _, f := range ps.Failures {
+			sum.Fail(f.Key, f.What, f.Replay)
+		}
 	}
 
 	// runtime.SortContractUpdates: the result does not depend on the input order
